@@ -233,6 +233,7 @@ class Report:
                 viols.append((sig, count, case, detail))
         # every reported counterexample is executed again twice; disagreement = harness defect
         internal = False
+        unstable = 0
         confirmed = []
         for sig, count, case, detail in viols:
             if recheck is not None:
@@ -244,10 +245,10 @@ class Report:
                     traceback.print_exc()
                     internal = True
                     continue
-                if a != b:
-                    print('INTERNAL: non-reproducible witness (two re-executions disagree) sig=%r case=%r'
-                          % (sig, case))
-                    internal = True
+                if (sig in a) != (sig in b):
+                    print('UNSTABLE: witness fails in only one of two re-executions (nondeterminism in the code under '
+                          'test or in the harness) sig=%r case=%r' % (sig, case))
+                    unstable += 1
                     continue
                 if sig not in a:
                     print('INTERNAL: witness does not reproduce in isolation sig=%r case=%r got=%r'
@@ -289,8 +290,8 @@ class Report:
                   violations=len(confirmed))
         write_evidence(self.prop, ev)
         close_pool()
-        if internal:
-            print('INTERNAL-ERROR property=%s (harness defect, no verdict)' % self.prop)
+        if internal or (unstable and not confirmed):
+            print('INTERNAL-ERROR property=%s (harness defect or unstable witnesses only, no verdict)' % self.prop)
             return 2
         if confirmed:
             return 1
